@@ -24,11 +24,12 @@ META = dict(
          "mock every transition of its state graph to depth 6 (two partitions + an unexpected one, yields of messages/errors, "
          "drain expectations, every close order, high-water marks) plus all paths to depth 3. Each behaviour is executed on the "
          "real mocks with a recording ErrorReporter; TLC checks per message: outcome of the i-th expectation, exactly one outcome, "
-         "increasing offsets, partition choice, and the exact bag of reported deviation kinds.",
+         "increasing offsets, partition choice, and at every step of the scripted run the exact number of ErrorReporter calls "
+         "the situation calls for (with their structured arguments).",
     note="bounded enumeration (thorough: scripts <=5 / 0..6 messages, interleavings with 6 kinds / 4 messages / batches of 2-3, all "
          "partition-count combinations with Return.Successes on/off, consumer graph to depth 8 with 3 messages + 2 errors per "
-         "partition and all paths to depth 4); reporter calls compared as a bag of "
-         "deviation kinds classified by their format string, not message texts; producer offsets only required to increase; "
+         "partition and all paths to depth 4); reporter calls judged by when (which step) and how often the mock "
+         "called Errorf and by the argument values passed, never by the wording; returned errors by identity; producer offsets only required to increase; "
          "harness + TLC trusted. Two defects of the pinned mocks are listed in known_findings.json.",
     design_ref="6/C20",
 )
@@ -43,7 +44,7 @@ THOROUGH = dict(
 )
 
 CLAUSES = {"fifo_outcome", "exactly_one_outcome", "unexpected_input_outcome", "offsets_increasing", "partition_choice",
-           "sync_return_partition", "checker_called", "deviation_not_reported", "unexpected_report", "consume_result",
+           "sync_return_partition", "checker_called", "deviation_not_reported", "unexpected_report", "report_arguments", "consume_result",
            "yield_order", "consecutive_offsets", "message_partition", "error_order", "high_water_mark", "no_hang_or_panic"}
 
 
@@ -123,7 +124,7 @@ def features(trace_events, v):
     ev = next((e for e in evs if e["i"] == v["index"]), {})
     f = {"component": "consumer" if reset.get("what") == "cons" else "producer", "event": ev.get("ev")}
     if f["component"] == "consumer":
-        f.update({k: ev.get(k) for k in ("op", "p", "off", "ret", "val", "errs", "hwm", "rep", "err") if k in ev})
+        f.update({k: ev.get(k) for k in ("op", "p", "off", "ret", "val", "errs", "hwm", "rep", "reptxt", "err") if k in ev})
         f["ops"] = ["%s(%s)" % (e.get("op"), e.get("p")) for e in evs if e.get("ev") == "cop"][:12]
         f["reports"] = [r for e in evs for r in e.get("rep", [])]
         return f
@@ -164,7 +165,7 @@ def features(trace_events, v):
         f["outs"] = ev.get("outs")
         f["rep"] = ev.get("rep")
     else:
-        f.update({k: ev.get(k) for k in ("ret", "after", "rep", "err", "outs", "n") if k in ev})
+        f.update({k: ev.get(k) for k in ("ret", "after", "rep", "reptxt", "err", "outs", "n") if k in ev})
         f["reports"] = [r for e in evs for r in e.get("rep", [])]
         f["ops"] = [e["ev"] for e in evs[1:]]
     return f
@@ -289,7 +290,10 @@ def run(ctx):
     return vlib.finish(ctx, "model_checking", cov, viols,
                        ["the mocks are used inside their documented domain: nothing is sent after Close, YieldMessage is not called "
                         "on a closed partition consumer, a partition is re-registered only with the same offset, partitioners do not fail",
-                        "ErrorReporter calls are classified by their format string into deviation kinds and compared as a bag per case",
+                        "ErrorReporter calls are attributed to the step of the scripted run during which the mock made them (async mock: until it "
+                        "released its mutex for that message); their number per step must be the number of deviations of that step, their "
+                        "argument values (topic/partition/offsets/counts/checker error) are compared as a bag when the count of values is the "
+                        "pinned one; the format string is recorded for information only",
                         "producer offsets are only required to increase strictly; the first consumer offset of a partition is free, the "
                         "following ones must be consecutive and the high-water mark is the last offset + 1",
                         "async mock: a message is complete once the mock released its mutex after asking the partitioner / reporting",
